@@ -3,6 +3,7 @@
 <scratch-root>/<ID>/out/m<i> to seeded/<ID>-r<round>m<i>/ with a meta.json"""
 import sys, os, re, json, shutil, subprocess
 rnd, root = sys.argv[1], sys.argv[2]
+THEMES = {"3": "triggers narrow in value space", "4": "interactions and state", "5": "two cooperating sites, multi-step sequences, unusual but valid input shapes"}
 titles = {json.loads(l)["id"]: json.loads(l).get("title") for l in open("/verif/properties.jsonl")}
 head = subprocess.run("git -C /repo rev-parse --short HEAD", shell=True, capture_output=True, text=True).stdout.strip()
 for log in sys.argv[3:]:
@@ -18,7 +19,7 @@ for log in sys.argv[3:]:
         files = re.findall(r"^\+\+\+ b/(\S+)", open(os.path.join(src, "patch.diff")).read(), re.M)
         meta = {"id": name, "breaks_property": pid, "property_title": titles[pid], "files_changed": files, "round": int(rnd),
                 "needs_to_manifest": "see notes.md (written by the sub-agent that produced the change)",
-                "origin": "fresh sub-agent (round %s: triggers narrow in value space) given only the property text and a scratch worktree of /repo at the repaired HEAD %s" % (rnd, head),
+                "origin": "fresh sub-agent (round %s: %s) given only the property text and a scratch worktree of /repo at the repaired HEAD %s" % (rnd, THEMES.get(rnd, "subtle changes"), head),
                 "confirmed_by_me": {"script": "tools/verify_mutant.sh <worktree> <dir>", "patch_only_suite": "green", "demo_only": "green",
                                     "patch_plus_demo": "red (the demonstration is the only failure)", "result": "OK"},
                 "checks_run": {}}
